@@ -106,6 +106,19 @@ BIN_AST = {ast.Add: "+", ast.Sub: "-", ast.Mult: "*", ast.Div: "/", ast.FloorDiv
 def mk_cmp(op, l, r):
     if op in CMP_FLIP:
         return ("cmp", CMP_FLIP[op], r, l)
+    if op in ("in", "notin") and l[0] == "const":
+        # membership of a constant in a display of constants (a literal table of accepted values) is decided
+        keys = None
+        if r[0] in ("tuple", "list", "set") and all(x[0] == "const" for x in r[1]):
+            keys = [x[1] for x in r[1]]
+        elif r[0] == "dict" and all(k[0] == "const" for k, _ in r[1]):
+            keys = [k[1] for k, _ in r[1]]
+        if keys is not None:
+            try:
+                hit = l[1] in keys
+                return ("const", hit if op == "in" else not hit)
+            except TypeError:
+                pass
     return ("cmp", op, l, r)
 
 
@@ -1381,6 +1394,11 @@ class Evaluator:
             return None
         d = s.module.defs[name][0]
         node = d.value if isinstance(d, (ast.Assign, ast.AnnAssign)) else None
+        if isinstance(node, ast.Dict) and node.keys and all(isinstance(k, ast.Constant) for k in node.keys) \
+                and all(isinstance(v, ast.Constant) for v in node.values):
+            mut = self._mutated_globals()
+            if s.qual not in mut:
+                return ("dict", tuple((("const", k.value), ("const", v.value)) for k, v in zip(node.keys, node.values)))
         if node is None or isinstance(node, (ast.Dict, ast.DictComp, ast.ListComp, ast.SetComp, ast.GeneratorExp, ast.Lambda)):
             return None  # tables are handled by _table_lookup; mutable containers keep their identity (rule G.1)
         if isinstance(node, (ast.List, ast.Set)) and not node.elts:
@@ -1842,9 +1860,8 @@ class Evaluator:
         keys = [self._const_key(m, k) for k in node.keys]
         if any(k is None for k in keys):
             return None
-        # never mutated: no `G[...] = `, `del G[...]`, `G.<mutator>(...)` anywhere in the package
-        cache = self.index.__dict__.setdefault("_mutated_globals", None)
-        if cache is None:
+        cache = self._mutated_globals()
+        if False:
             cache = set()
             for mm in self.index.modules.values():
                 for nd in ast.walk(mm.tree):
@@ -1889,6 +1906,26 @@ class Evaluator:
                     return None
             v = ITE(mk_cmp("eq", key, kc), val, v)
         return v
+
+    def _mutated_globals(self):
+        """module-level names that some code mutates: `G[...] = `, `del G[...]`, `G.<mutator>(...)` anywhere in the package"""
+        cache = self.index.__dict__.setdefault("_mutated_globals", None)
+        if cache is None:
+            cache = set()
+            for mm in self.index.modules.values():
+                for nd in ast.walk(mm.tree):
+                    tgt = None
+                    if isinstance(nd, (ast.Subscript,)) and isinstance(nd.ctx, (ast.Store, ast.Del)):
+                        tgt = nd.value
+                    elif isinstance(nd, ast.Call) and isinstance(nd.func, ast.Attribute) and nd.func.attr in (
+                            "update", "setdefault", "pop", "popitem", "clear", "__setitem__", "append", "extend"):
+                        tgt = nd.func.value
+                    if tgt is not None:
+                        sy = self.index.resolve_expr(mm, tgt) if isinstance(tgt, (ast.Name, ast.Attribute)) else None
+                        if sy is not None and sy.kind == "assign":
+                            cache.add(sy.qual)
+            self.index.__dict__["_mutated_globals"] = cache
+        return cache
 
     def _const_key(self, m, knode):
         """the constant a table key denotes: a literal, or `Class.tag()` of a classmethod that returns the declared default
@@ -3104,8 +3141,64 @@ class Summaries:
             s = Evaluator(self.index, m, fn, qual, cls).run()
         except RecursionError:
             raise AnalysisError(f"recursion while summarising {qual}", site=qual)
+        s = self._fix_new_parameters(qual, s)
         self._cache[qual] = s
         return s
+
+    _DECLS = None
+
+    def _fix_new_parameters(self, qual: str, s: Summary) -> Summary:
+        """A reference function that gained optional parameters (a new option): the rules, which state what the function did
+        before, read it with the new parameters at their defaults -- that is how every existing caller still calls it."""
+        if Summaries._DECLS is None:
+            try:
+                with open(os.path.join(os.path.dirname(os.path.abspath(__file__)), "pinned_decls.json")) as f:
+                    Summaries._DECLS = json.load(f)
+            except OSError:
+                Summaries._DECLS = {"functions": {}}
+        ref = Summaries._DECLS["functions"].get(qual)
+        if ref is None:
+            return s
+        known = set(ref["pos"]) | set(ref["kwonly"])
+        new = [p for p in s.params if p not in known and p in s.defaults and p not in ("self", "cls")]
+        if not new:
+            return s
+        from .memo import simplify
+        from .peval import peval
+        facts = {("param", p): s.defaults[p] for p in new}
+
+        def boolfold(t):
+            """constant comparisons left by the substitution ('s' == 's', 's' in {...}) decided, conjunct by conjunct"""
+            if not isinstance(t, tuple) or not t:
+                return t
+            if t[0] in ("and", "or"):
+                parts = [boolfold(c) for c in t[1]]
+                return AND(*parts) if t[0] == "and" else OR(*parts)
+            if t[0] == "not":
+                return NOT(boolfold(t[1]))
+            if t[0] == "cmp":
+                v = peval(t, {})
+                if v[0] == "const" and isinstance(v[1], bool):
+                    return TRUE if v[1] else FALSE
+                return t
+            if t[0] == "ite":
+                c = boolfold(t[1])
+                return ITE(c, boolfold(t[2]), boolfold(t[3]))
+            return tuple(boolfold(c) if isinstance(c, tuple) else c for c in t)
+
+        def inst(t):
+            return fold_sub(boolfold(simplify(t, facts))) if isinstance(t, tuple) else t
+
+        out = _bind_summary(s, inst)
+        out.events = [e for e in out.events if e.live != FALSE]
+        for i, e in enumerate(out.events):
+            pass
+        out.inlined = list(s.inlined)
+        out.alloc_comps = {k: inst(v) for k, v in s.alloc_comps.items()}
+        out.rec_types = dict(s.rec_types)
+        out.unpacked = dict(s.unpacked)
+        out.new_parameters = new  # type: ignore[attr-defined]
+        return out
 
     def _of_alias(self, qual: str) -> Optional[Summary]:
         """the summary of a reference function that was renamed / re-parameterised: its replacement's, in its own terms"""
